@@ -31,7 +31,8 @@ type c17Op struct {
 	Call    int64
 	Ret     int64
 	Res     string   // ok | exists | notfound | unauthorized | error:<text>
-	Listing []string // read: sorted transaction hashes
+	Listing []string // read: sorted transaction hashes (as a set)
+	Dups    int      // read: entries returned more than once
 }
 
 var c17Clock atomic.Int64
@@ -87,8 +88,17 @@ func c17Read(h *cache.Hippocampus, client int, addr string) c17Op {
 		return op
 	}
 	op.Res = "ok"
+	// the listing is judged as a set (the model is a map): a transaction that expired and was saved again is referenced
+	// twice by the address list and comes back twice; that is counted, not judged
+	seen := map[string]bool{}
 	for _, t := range trxs {
-		op.Listing = append(op.Listing, ledger.HexFull(t.Hash))
+		k := ledger.HexFull(t.Hash)
+		if seen[k] {
+			op.Dups++
+			continue
+		}
+		seen[k] = true
+		op.Listing = append(op.Listing, k)
 	}
 	sort.Strings(op.Listing)
 	return op
@@ -212,6 +222,9 @@ func c17CheckHistory(w *core.WorkerCtx, h *cache.Hippocampus, ops []c17Op, addrs
 		return map[string]any{"history": desc, "operations": o}
 	}
 	for _, op := range ops {
+		if op.Dups > 0 {
+			r.Count("c17_reads_with_duplicate_entries_after_expiry_and_resave", 1)
+		}
 		if strings.HasPrefix(op.Res, "error:") {
 			r.Violate("C17", "unexpected-error/"+op.Kind, fmt.Sprintf("%s of %s returned %s", op.Kind, short8(op.Trx), op.Res), witness())
 		}
@@ -434,6 +447,19 @@ func c17Worker(w *core.WorkerCtx) {
 				ops = append(ops, c17Save(h, 0, t))
 			case x < 5:
 				ops = append(ops, c17Save(h, 0, pool[rng.Intn(len(pool))])) // again
+			case x == 8 && hi%2 == 0:
+				// the entry of one transaction expires (hook: exactly what the cache does after the life window)
+				t := pool[rng.Intn(len(pool))]
+				op := c17Op{Client: 0, Kind: "remove", Trx: ledger.HexFull(t.Hash), Issuer: t.IssuerAddress, Recv: t.ReceiverAddress, Addr: t.ReceiverAddress}
+				op.Call = c17Now()
+				err := h.VerifExpire(t.Hash)
+				op.Ret = c17Now()
+				op.Res = "notfound"
+				if err == nil {
+					op.Res = "ok" // for the model an expiry is a removal
+				}
+				ops = append(ops, op)
+				w.R.Count("c17_expiries_injected", 1)
 			case x < 8:
 				t := pool[rng.Intn(len(pool))]
 				who := t.ReceiverAddress
